@@ -923,7 +923,7 @@ def eval_pairs(ctx, exe, mexe, cases, st):
                 continue
             try:
                 want, note = fa_expected(c, r0, b)
-            except (ValueError, ZeroDivisionError, IndexError) as ex:
+            except (ValueError, ZeroDivisionError, IndexError, TypeError, KeyError) as ex:
                 ctx.mismatch(public(c), "factor analysis replay: unreadable model answer (%s)" % ex)
                 continue
             if want is None:
